@@ -54,7 +54,7 @@ import (
 	"reflect"
 	"runtime"
 	"slices"
-	"sync/atomic"
+	_ "sync/atomic"
 	_ "unsafe"
 
 	"golang.org/x/tools/go/ssa"
@@ -375,12 +375,10 @@ func visitInstr(fr *frame, instr ssa.Instruction) continuation {
 		}
 
 	case *ssa.Go:
-		fn, args := prepareCall(fr, &instr.Call)
-		atomic.AddInt32(&fr.i.goroutines, 1)
-		go func() {
-			call(fr.i, nil, instr.Pos(), fn, args)
-			atomic.AddInt32(&fr.i.goroutines, -1)
-		}()
+		// Concurrency is explored only between the two closures of nd.Par (engine threads under the
+		// scheduler). A goroutine started by the code under test itself would run outside the scheduler and
+		// outside the path condition: not modelled, so the path is inconclusive rather than explored wrongly.
+		panic(unsupported("go statement in the code under test (goroutines are modelled only through nd.Par)"))
 
 	case *ssa.MakeChan:
 		fr.setv(instr, make(chan value, asInt64(fr.get(instr.Size))))
